@@ -184,6 +184,10 @@ class Ctx:
     def g(self, name):
         return self.ghost[name]
 
+    def range_index(self, k=1):
+        """hidden index of the k-th range-for loop of the unit"""
+        return self.st.scal[f'ghost.range{k}'].t
+
     def ghost_of(self, name):
         """ghost of the unit being verified (for instantiating a callee's ghosts at a call site)"""
         return self.ex.unit_ghosts[name]
@@ -1742,7 +1746,52 @@ class Exec:
         return self.loop(n, st, 'while', cond, None, bodyn)
 
     def st_CXXForRangeStmt(self, n, st):
-        return models.range_for(self, n, st)
+        """for (T v : container) body  over a std::vector: desugared into an index loop  i = 0 .. size()  with v = container[i];
+        the hidden index lives at ghost.range<k> (spec: cx.range_index(k)), the loop is keyed by the name of v"""
+        inner = n.get('inner', [])
+        rng = lv = None
+        for c in inner:
+            if c.get('kind') == 'DeclStmt':
+                for d in c.get('inner', []):
+                    if d.get('kind') == 'VarDecl' and d.get('name', '').startswith('__range'):
+                        rng = d
+                    elif d.get('kind') == 'VarDecl' and not d.get('name', '').startswith('__'):
+                        lv = d
+        bodyn = inner[-1]
+        if rng is None or lv is None:
+            raise ExtractionError(f'{self.unit}: range-for statement not understood (line {self.curline})')
+        init = [c for c in rng.get('inner', []) if c.get('kind') and not c['kind'].endswith(('Attr', 'Comment', 'Decl'))]
+        cont = self.ev_obj(init[0], st)
+        if not isinstance(cont, ObjRef) or class_kind(cont.cls) != 'vector':
+            raise ExtractionError(f'{self.unit}: range-for over {getattr(cont, "cls", cont)} not modelled (line {self.curline})')
+        self.rangecount = getattr(self, 'rangecount', 0) + 1
+        ip = f'ghost.range{self.rangecount}'
+        LONG = parse_type_str('long')
+        st.scal[ip] = IntV(I(0), LONG)
+        ect = parse_type(lv['type'])
+        region = cont.name
+
+        def cond_fn(s_):
+            return BoolV(s_.scal[ip].t < s_.len_of(region))
+
+        def inc_fn(s_):
+            s_.scal[ip] = IntV(s_.scal[ip].t + 1, LONG)
+            self.logw(('s', ip))
+            return VoidV()
+
+        def bind_fn(s_):
+            s_.names[lv['id']] = lv.get('name', '')
+            v = self.load(LElem(region, s_.scal[ip].t, '', ect, checked=True), s_)
+            s_.env[lv['id']] = v
+            self.logw(('v', lv['id']))
+            return VoidV()
+        cond = {'kind': 'PyExpr', 'fn': cond_fn}
+        inc = {'kind': 'PyExpr', 'fn': inc_fn}
+        body2 = {'kind': 'CompoundStmt', 'inner': [{'kind': 'PyExpr', 'fn': bind_fn}, bodyn]}
+        return self.loop(n, st, lv.get('name', 'v'), cond, inc, body2)
+
+    def ev_PyExpr(self, n, st):
+        return n['fn'](st)
 
     def body_once(self, st, cond, inc, bodyn):
         """one iteration from a state where cond was assumed; returns (continue_states, exit_states(brk), rets)"""
